@@ -25,6 +25,8 @@ def main():
         c11_gen.regen()
     except Exception as e:  # noqa: BLE001
         run.proof_broken.append(f"generator:Dtypes:{type(e).__name__}:{e}")
+    import c12_pins
+    c12_pins.for_check(run, "C10")
     run.build_and_audit(["TdVerif.Props.C10"])
     drv = run.driver()
     with warnings.catch_warnings():
